@@ -112,3 +112,21 @@ Definition run_rows (c : json) : option json :=
   let targets := match jfield_of (jlist_of jstr) "targets" c with Some l => l | None => [] end in
   do out <- omap (run_row m p tabs targets) rows ;;
   Some (JList out).
+
+(* ---- the state-choice space of a period according to the specification (C17) --------------- *)
+Definition of_z (z : Z) : json := JInt z.
+Definition run_state_space (c : json) : option json :=
+  do m <- jfield_of jmodel "model" c ;; do p <- jfield_of jparams "params" c ;;
+  do t <- jfield_of jnat "period" c ;;
+  let vars := (restricted_states m ++ restricted_choices m)%list in
+  let combos := stored_combinations m p t in
+  Some (JObj [("sparse_names", of_list JStr (map fst vars));
+              ("sparse_vars", of_list (fun sg => of_list (fun ie => of_q (grid_point (snd sg) (ilook ie (fst sg)))) combos) vars);
+              ("state_indexer", of_arr of_z (spec_indexer m p t));
+              ("segment_ids", of_list of_z (spec_segments m p t));
+              ("num_segments", of_nat (length (remaining_states m p t)));
+              (* canonical order of the unrestricted variables stored as full grids: discrete states,
+                 discrete choices, continuous states (continuous choices are handled by the solver) *)
+              ("dense_names", of_list JStr (map fst (free_discrete_states m)
+                                            ++ map fst (filter (fun sg => negb (is_restricted m (fst sg)) && negb (is_cont (snd sg))) (choices m))
+                                            ++ map fst (free_continuous_states m))%list)]).
